@@ -36,6 +36,7 @@ import (
 
 type Reader struct {
 	reader    io.Reader
+	adapter   readerAdapter
 	buffer    []byte
 	bytesRead uint64
 	config    *configuration.Configuration
@@ -53,7 +54,8 @@ func (_this *Reader) Init(config *configuration.Configuration) {
 }
 
 func (_this *Reader) SetReader(reader io.Reader) {
-	_this.reader = reader
+	_this.adapter.Init(reader)
+	_this.reader = &_this.adapter
 }
 
 func (_this *Reader) ReadUint8() uint8 {
@@ -200,6 +202,46 @@ func (_this *Reader) ReadIdentifier() []byte {
 // ============================================================================
 
 // Internal
+
+// readerAdapter narrows the io.Reader contract to what this reader (and the
+// ULEB128, compact float and compact time decoders it hands the reader to)
+// rely on: every call returns either at least one byte and a nil error, or no
+// bytes and a non-nil error. io.Reader allows a call to return data together
+// with an error (including io.EOF), and to return (0, nil).
+type readerAdapter struct {
+	reader io.Reader
+	err    error
+}
+
+const maxConsecutiveEmptyReads = 100
+
+func (_this *readerAdapter) Init(reader io.Reader) {
+	_this.reader = reader
+	_this.err = nil
+}
+
+func (_this *readerAdapter) Read(p []byte) (n int, err error) {
+	if len(p) == 0 {
+		return 0, nil
+	}
+	if _this.err != nil {
+		return 0, _this.err
+	}
+	for i := 0; i < maxConsecutiveEmptyReads; i++ {
+		n, err = _this.reader.Read(p)
+		if n > 0 {
+			// Report the error (if any) on the next call, after the data
+			_this.err = err
+			return n, nil
+		}
+		if err != nil {
+			_this.err = err
+			return 0, err
+		}
+	}
+	_this.err = io.ErrNoProgress
+	return 0, _this.err
+}
 
 // TODO: Check max big.int bit count
 const maxBigIntBitCount = 8192
